@@ -260,10 +260,8 @@ Definition F_selfcoll (M : cmodel) : bool :=
   forallb (fun c => forallb (fun f => match kind_of M f with
                                       | KColl t => negb (String.eqb (py_lower t) (py_lower (c_name c)))
                                       | _ => true end) (own_public_fields M c)) M.
-(* C06-b: some class declares a public int/float/str/bool scalar *)
-Definition F_hasbuiltin (M : cmodel) : bool :=
-  existsb (fun c => existsb (fun f => match f_ep f, is_coll (f_shape f) with EB b, false => json_elem b | _, _ => false end)
-                            (own_public_fields M c)) M.
+(* C06-b (no public int/float/str/bool scalar => `builtins` not imported) was repaired in /repo by b804898:
+   no hypothesis is needed any more *)
 (* C06-c/d/e/f: no field named like a generated attribute or a reserved one; no x_id beside a reference x *)
 Definition F_attrnames (M : cmodel) : bool :=
   forallb (fun c => let ns := field_names (own_public_fields M c) in
@@ -274,4 +272,4 @@ Definition F_attrnames (M : cmodel) : bool :=
 (* C06-g/h: class names stay distinct when lower-cased and contain no underscore *)
 Definition F_classnames (M : cmodel) : bool :=
   str_nodup (map py_lower (class_names M)) && forallb (fun c => negb (contains_char "_" (c_name c))) M.
-Definition inF (M : cmodel) : bool := F_selfcoll M && F_hasbuiltin M && F_attrnames M && F_classnames M.
+Definition inF (M : cmodel) : bool := F_selfcoll M && F_attrnames M && F_classnames M.
